@@ -99,10 +99,7 @@ class Arm(Robot):
         self.screw_list_body = np.zeros((6, self.num_dof))
         self.initialize(base_pos_global, screw_list, end_effector_home, joint_poses_home)
 
-        for i in range(0, self.num_dof):
-            self.screw_list_body[:, i] = (
-                fmr.Adjoint(self._end_effector_home.inv().gTM()) @
-                self.screw_list[:, i])
+        self._helper_update_body_screws()
     # Backups
         self.original_screw_list = screw_list.copy()
         self.FK(np.zeros((self.num_dof)))
@@ -896,12 +893,16 @@ class Arm(Robot):
         new_home = fsr.localToGlobal(self._end_effector_home, old_to_new)
         self._end_effector_home = new_home
         self._helper_determine_eef_to_last_joint()
+        self._helper_update_body_screws()
+        self.FK(self._theta)
 
     #Converted to Python - Joshua
     def restoreOriginalEE(self) -> None:
         """Restore the original End effector configuration of the arm."""
         self._end_effector_home = self._original_end_effector_home
         self._helper_determine_eef_to_last_joint()
+        self._helper_update_body_screws()
+        self.FK(self._theta)
 
     def getScrewList(self) -> 'np.ndarray[float]':
         """
@@ -1425,6 +1426,7 @@ class Arm(Robot):
         curth = self._theta.copy()
         self.initialize(new_base_pos_global, self.original_screw_list.copy(),
             self._end_effector_home_local, self.original_joint_poses_home)
+        self._helper_update_body_screws()
         if stationary == False:
             self.FK(self._theta)
         else:
@@ -1454,6 +1456,12 @@ class Arm(Robot):
                 atol = 1e-9, rtol = 0):
             self._eef_to_last_joint = fsr.globalToLocal(
                     self._end_effector_home, self._joint_homes_global[-1])
+
+    def _helper_update_body_screws(self):
+        """Express the space screws in the current end effector home frame (body screws)."""
+        home_inv_adjoint = fmr.Adjoint(self._end_effector_home.inv().gTM())
+        for i in range(0, self.num_dof):
+            self.screw_list_body[:, i] = home_inv_adjoint @ self.screw_list[:, i]
 
     def _helper_ensure_theta_not_none(self, theta : 'np.ndarray[float]') -> 'np.ndarray[float]':
         """
